@@ -175,6 +175,11 @@ def Config.configuredHir (cfg : Config) (pats : List Bytes) (translated : Hir) :
   else if cfg.banRejects translated then .error (.banned (cfg.ban.getD 0))
   else cfg.stripped translated
 
+/-- what the user asked for, before the terminator is stripped: the alternation of the literal
+patterns on the fixed-strings route, otherwise what the translator made of `patternText` -/
+def Config.userHir (cfg : Config) (pats : List Bytes) (translated : Hir) : Hir :=
+  if cfg.isFixedStrings pats then fixedHir pats else translated
+
 /-- `into_whole_line` (before `Hir::concat` flattens it) -/
 def Config.intoWholeLine (cfg : Config) (h : Hir) : Hir :=
   .concat (.cons (.look (if cfg.crlf then .StartCRLF else .StartLF))
@@ -221,13 +226,15 @@ def fastLiterals (cfg : Config) (accelerated : Bool) (h : Hir) (optimized : Seq)
     | none => none
   else none
 
-/-- `RegexMatcherBuilder::build_many` -/
+/-- `RegexMatcherBuilder::build_many`.  `norm` stands for regex-syntax's smart constructors, through
+which the real code rebuilds every node (`Hir::concat`, `Hir::class`, …): an external,
+meaning-preserving normalisation of the tree. -/
 def Config.build (cfg : Config) (pats : List Bytes) (translated : Hir) (accelerated : Bool)
-    (optimize : Seq → Seq) : Except BuildErr MatcherM :=
+    (optimize : Seq → Seq) (norm : Hir → Hir) : Except BuildErr MatcherM :=
   match cfg.configuredHir pats translated with
   | .error e => .error e
   | .ok h0 =>
-    let h := cfg.wrap h0
+    let h := norm (cfg.wrap h0)
     .ok { hir := h
         , lineTerm := cfg.lineTerminatorOf h
         , nonMatching := nonMatching h
